@@ -1,4 +1,5 @@
 import MpfVerif.Lemmas.BallLedgerHeading
+import MpfVerif.Lemmas.BallLedgerEC
 /-!
 # C04 — ball counts agree with the physical machine and are conserved (PARTIAL: theorems about the ledger protocol)
 
@@ -102,5 +103,41 @@ example : (run twoSrc (initSt twoSrc [2, 0, 0, 0])
     [.plan [0, 1, 3], .waitTarget 0, .waitBall 1, .attempt 0 1 0, .ejectStart 0 1, .ballLeft 0, .enterExpected 1,
      .confirm 0 1, .waitTarget 1, .attempt 1 3 0, .ejectStart 1 3, .ballLeft 1, .confirm 1 3]).map
     (fun s => (s.balls, s.avail, s.inflight, s.known)) = some ([1, 0, 0, 1], [1, 0, 0, 1], 0, 2) := by decide
+
+/-! ### the entrance-switch counter (a device without ball switches: `entrance_switch` + `ball_capacity`) -/
+
+/-- **entrance counter, count = entries − ejects**: whatever sequence of entrance-switch hits (inside or outside the ignore
+window), full-time-out expiries, switch openings and own ejects happens to a counter that starts empty, its ball count is
+exactly the number of balls it has counted in minus the number it has counted out. -/
+theorem entrance_count_is_entries_minus_ejects (cap : Nat) (fullTo : Bool) (node : Nat) (ops : List ECOp) (e : EC)
+    (h : ecRun { node := node, cap := cap, fullTo := fullTo } ops = some e) : e.last + e.ejects = e.entries :=
+  (ecRun_inv ops _ e h ⟨rfl, Nat.zero_le _, by simp⟩).1
+
+/-- **entrance counter, never above capacity**: in every reachable state `0 ≤ count ≤ ball_capacity` (a hit on a full device
+is not counted; the hit that would fill it waits for `entrance_switch_full_timeout` or for the switch opening and still fits). -/
+theorem entrance_count_within_capacity (cap : Nat) (fullTo : Bool) (node : Nat) (ops : List ECOp) (e : EC)
+    (h : ecRun { node := node, cap := cap, fullTo := fullTo } ops = some e) : e.last ≤ cap := by
+  have := (ecRun_inv ops _ e h ⟨rfl, Nat.zero_le _, by simp⟩).2.1
+  rw [ecRun_cap ops _ e h] at this
+  exact this
+
+/-- **entrance counter, full detection**: a hit that would fill the device (`entrance_switch_full_timeout` configured) is
+deferred; when the ball stays on the switch for the full time-out the device is counted full. -/
+theorem entrance_full_detection (e : EC) (hl : e.last < e.cap) :
+    (ecStep e .full).map (fun e' => (e'.last, e'.pending)) = some (e.cap, false) := by
+  simp [ecStep, hl]
+
+/-- **known finding (witness)**: capacity 2 with full time-out; a ball enters, a second one comes to rest on the entrance
+switch (deferred), the device ejects a ball, the second ball rolls down and the switch opens before the full time-out: the
+deferred hit is dropped as a bounce (by design - a ball and a bounce look the same at the switch), count 0 with one ball in
+the device (`entries` 1, `ejects` 1, `dropped` 1). -/
+theorem entrance_short_rest_dropped_witness :
+    (ecRun { node := 2, cap := 2, fullTo := true } [.hit false, .hit false, .left, .release]).map
+      (fun e => (e.last, e.entries, e.ejects, e.dropped, e.pending)) = some (0, 1, 1, 1, false) := by decide
+
+/-- the hypotheses are satisfiable and the counter is not trivial: without full time-out every hit outside the ignore window
+counts up to the capacity, a hit on the full device does not -/
+example : (ecRun { node := 2, cap := 2, fullTo := false } [.hit false, .hit true, .hit false, .hit false, .left]).map
+    (fun e => (e.last, e.entries, e.ejects, e.dropped)) = some (1, 2, 1, 2) := by decide
 
 end MpfVerif.C04
